@@ -258,7 +258,7 @@ func instrumentFile(p *packages.Package, f *ast.File, fe *fileEdits, st *stats) 
 					return false
 				}
 			case *ast.GoStmt:
-				st.Warnings = append(st.Warnings, site(x.Pos())+": go statement inside package spec is not modelled by the scheduler")
+				st.Warnings = append(st.Warnings, site(x.Pos())+": go statement inside package spec: the goroutine runs outside the schedule")
 			case *ast.SendStmt:
 				found = true
 				return false
@@ -365,6 +365,13 @@ func instrumentFile(p *packages.Package, f *ast.File, fe *fileEdits, st *stats) 
 				}
 				fe.edits = append(fe.edits, edit{off(n.Body.Lbrace) + 1, off(n.Body.Lbrace) + 1, fmt.Sprintf(" verifStep(%q); ", name), 0})
 				st.Steps++
+			}
+		case *ast.GoStmt:
+			// a goroutine started by the library itself is not a task of the simulator: it is counted
+			// while it may be alive, and the hooks ignore it (sim/foreign.go)
+			fe.edits = append(fe.edits, edit{off(n.Pos()), off(n.Pos()), "verifGoSpawn(); ", 0})
+			if lit, ok := n.Call.Fun.(*ast.FuncLit); ok {
+				fe.edits = append(fe.edits, edit{off(lit.Body.Lbrace) + 1, off(lit.Body.Lbrace) + 1, " defer verifGoExit(); ", 0})
 			}
 		case *ast.SelectStmt:
 			st.Warnings = append(st.Warnings, site(n.Pos())+": select statement inside package spec is not modelled by the scheduler")
@@ -570,6 +577,21 @@ var VerifHooks struct {
 	Block   func(lock interface{}, site string)
 	Release func(lock interface{})
 	NoYield func(on bool)
+	Spawn   func(delta int)
+}
+
+// verifGoSpawn / verifGoExit bracket the life of a goroutine the package starts itself (the exit is
+// only known for function literals; a goroutine running a named function counts as alive for good).
+func verifGoSpawn() {
+	if h := VerifHooks.Spawn; h != nil {
+		h(1)
+	}
+}
+
+func verifGoExit() {
+	if h := VerifHooks.Spawn; h != nil {
+		h(-1)
+	}
 }
 
 func verifZeroKV[M ~map[K]V, K comparable, V any](M) (k K, v V) { return }
